@@ -40,7 +40,12 @@ from typing import (
 
 from lxml import etree
 
-from _delb.exceptions import AmbiguousTreeError, InvalidCodePath, InvalidOperation
+from _delb.exceptions import (
+    AmbiguousTreeError,
+    InvalidCodePath,
+    InvalidOperation,
+    XPathEvaluationError,
+)
 from _delb.names import (
     GLOBAL_PREFIXES,
     XML_NAMESPACE,
@@ -2090,12 +2095,22 @@ class TagNode(_ElementWrappingNode, NodeBase):
                 f"The tree already contains {query_result.size} matching branches."
             )
 
-        return self._create_by_xpath(
-            ast=ast,
-            namespaces=Namespaces(
-                {"": self.namespace} if namespaces is None else namespaces
-            ),
+        _namespaces = Namespaces(
+            {"": self.namespace} if namespaces is None else namespaces
         )
+        # an unknown prefix must be reported before any node is created
+        for step in ast.location_paths[0].location_steps:
+            for prefix in (
+                step.node_test.prefix,  # type: ignore
+                *(a[0] for a in step._derived_attributes),
+            ):
+                if prefix and prefix not in _namespaces:
+                    raise XPathEvaluationError(
+                        f"The namespace prefix `{prefix}` is unknown in the evaluation "
+                        "context."
+                    )
+
+        return self._create_by_xpath(ast=ast, namespaces=_namespaces)
 
     def _create_by_xpath(
         self,
